@@ -29,8 +29,8 @@ Print Assumptions C07_occupied_le_n.
    at most the number of distinct keys at the leaves of the history *)
 Theorem C07_occupied_le_n_hll : forall p seed (h : Hll.hll_hist),
   hll_p_min <= p <= hll_p_max /\ 0 <= seed < 2 ^ 64 ->
-  length (hll_reg_list p seed h) = Z.to_nat (2 ^ p) /\
-  count_nz (hll_reg_list p seed h) <= Z.of_nat (length (nodup keyq_eq_dec (Hll.hll_keys_raw h))).
+  length (hllq_reg_list p seed h) = Z.to_nat (2 ^ p) /\
+  count_nz (hllq_reg_list p seed h) <= Z.of_nat (length (nodup keyq_eq_dec (Hll.hll_keys_raw h))).
 Proof. exact occupied_le_n_hll. Qed.
 Print Assumptions C07_occupied_le_n_hll.
 
@@ -59,5 +59,5 @@ Proof. repeat split; apply Rlt_le || idtac; try apply (IZR_lt 3 100); try apply 
 Example C07_occupied_hll_nonvacuous :
   let h := Hll.HlMerge (Hll.HlUpdate Hll.HlNew [[1]; [2; 3]; [1]]) (Hll.HlNgram Hll.HlNew [7; 8; 9; 10] 3) in
   (hll_p_min <= 7 <= hll_p_max /\ 0 <= 5 < 2 ^ 64) /\
-  count_nz (hll_reg_list 7 5 h) = 4 /\ length (nodup keyq_eq_dec (Hll.hll_keys_raw h)) = 4%nat.
+  count_nz (hllq_reg_list 7 5 h) = 4 /\ length (nodup keyq_eq_dec (Hll.hll_keys_raw h)) = 4%nat.
 Proof. vm_compute. repeat split; try reflexivity; discriminate. Qed.
